@@ -156,7 +156,9 @@ def run_procs(res, cmds, timeout=3600, env=None, jobs=NCPU, ok_codes=(0,), log=N
         tag, argv = c[0], c[1]
         e = dict(os.environ)
         e.setdefault("ASAN_OPTIONS", "detect_leaks=0:abort_on_error=0")
-        e.setdefault("UBSAN_OPTIONS", "print_stacktrace=1")
+        # abort_on_error: a fatal UBSan report (-fno-sanitize-recover) raises SIGABRT instead of calling _exit, so that an in-process
+        # harness' crash reporter (hist.h install_crash_reporter) still prints the history under evaluation as a @VIOL line
+        e.setdefault("UBSAN_OPTIONS", "print_stacktrace=1:abort_on_error=1")
         if env:
             e.update(env)
         if len(c) > 2 and c[2]:
